@@ -2143,7 +2143,8 @@ impl Element {
             if self.element_type().splittable() != 0 {
                 for se in self.sub_elements() {
                     if let Some(mut subelem) = se.0.try_write() {
-                        if subelem.file_membership.is_empty() {
+                        // the SHORT-NAME is part of the element in every file that contains the element
+                        if subelem.file_membership.is_empty() && subelem.elemname != ElementName::ShortName {
                             subelem.file_membership.clone_from(&current_fileset);
                         }
                     }
